@@ -425,8 +425,10 @@ class Builder:
                     return n
             raise Invalid("numbers exhausted")
 
-        def typed(f, kinds=("scalar", "enum", "msg")):
+        def typed(f, kinds=("scalar", "scalar", "enum", "msg")):
             k = r.choice(kinds)
+            if k == "msg" and self.flavor.get("wide") and r.random() < 0.6:
+                k = "scalar"
             if k == "enum":
                 fq = self.pick_ref(node, file, "e")
                 if fq:
@@ -525,8 +527,46 @@ class Builder:
         return req
 
 
+def context_cost(req, cap=1200):
+    """Number of MessageType.with_context calls /repo will make for the target files (its traversal is per PATH of the
+    reference graph, so densely recursive schemas take minutes to generate: a performance hazard of the generator that is
+    outside C02).  Candidates above the cap are discarded (counted as invalid candidates)."""
+    u = universe(req)
+    n = [0]
+
+    class Over(Exception):
+        pass
+
+    def visit(full, visited):
+        n[0] += 1
+        if n[0] > cap:
+            raise Over()
+        t = u[full]
+        v2 = visited | {full}
+        for f in t["pb"].field:
+            if f.type == F.TYPE_MESSAGE:
+                tgt = f.type_name.lstrip(".")
+                if tgt in v2:
+                    n[0] += 1
+                else:
+                    visit(tgt, v2)
+        for nn in t["pb"].nested_type:
+            visit(full + "." + nn.name, v2)
+
+    try:
+        for fp in target_files(req):
+            for full, t in u.items():
+                if t["file"] == fp.name and t["kind"] == "m":
+                    visit(full, frozenset())
+    except Over:
+        return None
+    return n[0]
+
+
 def random_request(r, flavor=None):
     """(request, features) or raises apigen.Invalid / Invalid."""
     b = Builder(r, flavor)
     req = b.build()
+    if context_cost(req) is None:
+        raise Invalid("reference graph too dense for the generator's with_context traversal")
     return req, sorted(b.features)
